@@ -267,6 +267,16 @@ Definition rewind_st (verify : bool) (st : store) (f : fs) (ck : list entry) : f
 Definition expected_restore_order : list N := [1; 2; 3; 4].
 Definition store_wf (order : list N) : bool := list_eqb N.eqb order expected_restore_order.
 
+(* tie T1 for apply_patch (not modelled beyond its paths): Patch::affected_paths pushes, per PatchOp variant in source
+   order (1 AddFile, 2 DeleteFile, 3 UpdateFile), the fields 1 = path, 2 = moved_to; PatchOp has exactly these variants;
+   every file-system call of Workspace::apply_patch and of its undo takes a path derived from safe_join(path) /
+   safe_join(moved_to) (the programs 40-43, 46 of Paths.expected_progs, read by tools/gen/resolvers.py) *)
+Definition expected_patch_cover : list (N * list N) := [(1, [1]); (2, [1]); (3, [1; 2])].
+Definition patch_ids : list N := [40; 41; 42; 43; 46].
+Definition patch_wf (variants_ok : bool) (cover : list (N * list N)) (progs : list (N * list (N * N))) : bool :=
+  variants_ok && list_eqb idl_eqb cover expected_patch_cover
+  && list_eqb prog_eqb progs (filter (fun p => existsb (N.eqb (fst p)) patch_ids) expected_progs).
+
 (* ---------- correspondence (harness/src/bin/c14.rs) ---------- *)
 Inductive op :=
 | OCreate (raws : list str) (code : N) (recorded : list (str * bool))   (* observed result *)
